@@ -1374,6 +1374,22 @@ func genExits(repo, out string) {
 			return true
 		})
 	}
+	// rpc.go establishRegion: the retry loop ends, on every path that does not return, with
+	// `addr = ""` — the next iteration looks the region up again instead of probing the address
+	// that has just refused it
+	addrReset := false
+	if fd := findMethod(f, "client", "establishRegion"); fd != nil {
+		ast.Inspect(fd.Body, func(n ast.Node) bool {
+			if fs, ok := n.(*ast.ForStmt); ok && fs.Cond == nil && len(fs.Body.List) > 0 {
+				if as, ok := fs.Body.List[len(fs.Body.List)-1].(*ast.AssignStmt); ok && len(as.Lhs) == 1 && len(as.Rhs) == 1 &&
+					exprStr(as.Lhs[0]) == "addr" && exprStr(as.Rhs[0]) == `""` {
+					addrReset = true
+				}
+			}
+			return true
+		})
+	}
+	g.def("establishLoopEndsWithAddrReset", "Bool", fmt.Sprint(addrReset))
 	g.def("regionClientReadTimeoutArgs", "List String", leanList(rtArgs))
 	// region/new.go NewClient: the parameter in 6th position and the field it is stored in
 	rtParam, rtField := "", ""
@@ -1441,6 +1457,26 @@ func genExits(repo, out string) {
 	} else {
 		g.fail("findClients missing")
 	}
+	// … and that context is declared afresh for every call of the batch (inside the range loop):
+	// what ended the location of one call must not end the location of the next
+	perCall := false
+	if fd := findMethod(f, "client", "findClients"); fd != nil && len(locCtx) == 1 {
+		ast.Inspect(fd.Body, func(n ast.Node) bool {
+			if rs, ok := n.(*ast.RangeStmt); ok {
+				for _, st := range rs.Body.List {
+					if as, ok := st.(*ast.AssignStmt); ok && as.Tok == token.DEFINE {
+						for _, l := range as.Lhs {
+							if exprStr(l) == locCtx[0] {
+								perCall = true
+							}
+						}
+					}
+				}
+			}
+			return true
+		})
+	}
+	g.def("findClientsLocateCtxPerCall", "Bool", fmt.Sprint(perCall))
 	g.def("findClientsLocateCtx", "List String", leanList(locCtx))
 	g.def("findClientsAfterFunc", "List String", leanList(afterFuncs))
 	g.def("findClientsWithCancel", "List String", leanList(withCancels))
